@@ -69,8 +69,9 @@ def fit_data(draw, s):
         for _ in range(n):
             if integral:
                 # an integer-valued diagram, handed over as an integer array or a nested list of ints (mixed with fractional ones in a list)
-                b = draw(st.integers(-2, 5))
-                pts.append([b, b + min(draw(st.integers(1, 6)), max(1, int(30 * s)))])
+                mult = draw(st.sampled_from([1, 1, 20]))        # x20: births -100..100, an extent that does not fit int8
+                b = draw(st.integers(-5, 5)) * mult
+                pts.append([b, b + min(draw(st.integers(1, 6)) * mult, max(1, int(30 * s)))])
                 continue
             b = draw(st.one_of(st.sampled_from([0.0, 0.1, 0.3, 0.7, 1.0, -0.2, 2.5]), finite(-5, 5)))
             p = draw(st.one_of(st.sampled_from(DECIMALS), finite(0.01, 20.0))) * draw(st.sampled_from([1, 1, 2, 3]))
@@ -254,7 +255,14 @@ def run_history(case, ctx):
             given = []
             for a, form, d in zip(arrays, op.get("forms") or ["float"] * len(arrays), op["dgms"]):
                 if form in ("int", "list") and case.get("unit", 1.0) == 1.0 and all(float(v).is_integer() for q in d for v in q):
-                    given.append(np.array(d, dtype=np.int64) if form == "int" else [[int(v) for v in q] for q in d])
+                    if form == "int":
+                        # the narrowest integer type that holds the values (int8 data spanning more than 127 cannot hold its own extent)
+                        flat = [int(v) for q in d for v in q]
+                        dtp = next(t for t in (np.uint8, np.int8, np.int16, np.int32, np.int64) if np.iinfo(t).min <= min(flat) and max(flat) <= np.iinfo(t).max)
+                        given.append(np.array(d, dtype=dtp))
+                        kinds.add("fit_" + np.dtype(dtp).name)
+                    else:
+                        given.append([[int(v) for v in q] for q in d])
                     kinds.add("fit_integer_form")
                 else:
                     given.append(a)
